@@ -312,6 +312,19 @@ func c14W4(b *core.B, r *core.Rng, rounds int) {
 			continue
 		}
 		parent := progCtx(nil)
+		// every other round: the block is declared once, in the shared parent,
+		// and only replayed (with the caller's data) by the concurrent executions
+		shared := round%2 == 1
+		if shared {
+			tl, err2 = plush.NewTemplate("layout(<%= contentOf(\"side\", {who: who}) %>)<%= who %>")
+			if err2 != nil {
+				continue
+			}
+			parent.Set("who", "declared-in-parent")
+			if pan := core.Guard(func() { _, err1 = tp.Exec(parent) }); pan != nil || err1 != nil {
+				continue
+			}
+		}
 		run := func(who string) (string, *core.PanicInfo) {
 			env := &progEnv{}
 			ctx := c14Child(parent, env)
@@ -320,13 +333,21 @@ func c14W4(b *core.B, r *core.Rng, rounds int) {
 			pan := core.Guard(func() {
 				c14Enter()
 				defer c14Leave()
+				if shared {
+					s2, e2 := tl.Exec(ctx)
+					out = fmt.Sprintf("%q %v", s2, e2)
+					if e2 == nil && !strings.Contains(s2, "|"+who+"]") {
+						out += " (the replayed block does not show this execution's data)"
+					}
+					return
+				}
 				s1, e1 := tp.Exec(ctx)
 				s2, e2 := tl.Exec(ctx)
 				out = fmt.Sprintf("%q %v / %q %v", s1, e1, s2, e2)
 			})
 			return out, pan
 		}
-		G := []int{4, 8, 16, 32}[round%4]
+		G := []int{4, 8, 16, 32}[(round/2)%4]
 		refs := make([]string, G)
 		for g := 0; g < G; g++ {
 			o, pan := run(fmt.Sprintf("w%d", g))
@@ -363,7 +384,11 @@ func c14W4(b *core.B, r *core.Rng, rounds int) {
 		}
 		close(start)
 		wg.Wait()
-		b.Count(fmt.Sprintf("W4:contentFor-then-contentOf-same-context:G=%d", G))
+		if shared {
+			b.Count(fmt.Sprintf("W4:contentFor-in-shared-parent-contentOf-from-children:G=%d", G))
+		} else {
+			b.Count(fmt.Sprintf("W4:contentFor-then-contentOf-same-context:G=%d", G))
+		}
 		b.NonTrivialStr(page)
 		if len(bad) > 0 {
 			b.Violate("concurrent-result-differs|W4-contentFor-contentOf", strings.Join(bad, "\n"))
@@ -630,7 +655,7 @@ func init() {
 	core.Register(&core.Prop{
 		ID:      "C14",
 		Level:   "exploration",
-		Rule:    "worker processes built with -race (and -tags verif), each sub-workload in its own child process, repeated 5x (quick) / 30x (thorough) because race reports vary from run to run. W1: one parsed template from the shared generator (no mutation of shared data) executed by G in {2,4,8,16,32} goroutines x 3 repetitions, with own root contexts and with child contexts of one shared parent, hook H3 yielding at statement boundaries under a seeded chooser; every result (output, error, side-effect trace) compared with the sequential result. W2: CacheEnabled=true, 4-32 goroutines mixing Render / Parse+Exec / CacheSet+Clone / cold texts over 6 templates, results compared with sequential ones. W4: the layout pattern - per goroutine one execution declaring a contentFor block and a later execution of another template replaying it with contentOf on the same child context of a shared parent, 4-32 goroutines. W3: 2-16 goroutines doing Set (unique values) / Value / Has on one context and through its child and grandchild plus New() storms, few keys; in half of the rounds every call is recorded at the client boundary with ticks from one atomic counter and the history (<= 400 operations) is checked for linearizability against a per-key register model with porcupine (timeout -> inconclusive). Oracle for all: every 'WARNING: DATA RACE' block of the process' race log whose innermost frame of either access is plush code is a violation 'race:<f>|<g>'. Non-trivial = a template / round that ran with >= 2 goroutines; evidence reports the maximum number of overlapping Exec calls and the number of distinct interleaving fingerprints observed.",
+		Rule:    "worker processes built with -race (and -tags verif), each sub-workload in its own child process, repeated 5x (quick) / 30x (thorough) because race reports vary from run to run. W1: one parsed template from the shared generator (no mutation of shared data) executed by G in {2,4,8,16,32} goroutines x 3 repetitions, with own root contexts and with child contexts of one shared parent, hook H3 yielding at statement boundaries under a seeded chooser; every result (output, error, side-effect trace) compared with the sequential result. W2: CacheEnabled=true, 4-32 goroutines mixing Render / Parse+Exec / CacheSet+Clone / cold texts over 6 templates, results compared with sequential ones. W4: the layout pattern - per goroutine one execution declaring a contentFor block and a later execution of another template replaying it with contentOf on the same child context of a shared parent, or the block declared once in the shared parent and replayed with per-execution data from its children, 4-32 goroutines. W3: 2-16 goroutines doing Set (unique values) / Value / Has on one context and through its child and grandchild plus New() storms, few keys; in half of the rounds every call is recorded at the client boundary with ticks from one atomic counter and the history (<= 400 operations) is checked for linearizability against a per-key register model with porcupine (timeout -> inconclusive). Oracle for all: every 'WARNING: DATA RACE' block of the process' race log whose innermost frame of either access is plush code is a violation 'race:<f>|<g>'. Non-trivial = a template / round that ran with >= 2 goroutines; evidence reports the maximum number of overlapping Exec calls and the number of distinct interleaving fingerprints observed.",
 		Assume:  []string{"a clean run means no race on the interleavings observed, not race freedom", "templates do not mutate data reachable from a shared parent (that would be a user-level race)"},
 		Batches: batchesQT(25, 150),
 		Run:     c14Run,
